@@ -620,6 +620,69 @@ def check(model, rep):
                'IndexError instead of returning the rendering' % val[:60], line=line)
     rep.floor('R20.7', 'payload stores of Screw.__init__', n_store, 2)
 
+    # ---------------------------------------------------------------- R20.9
+    # tm.__getitem__ reads `self.TAA[k, 0]`: a list of transforms is rendered through it, so the six-vector must be a 6x1 COLUMN whenever a
+    # method of tm returns.  TAAtoTM() brings whatever was stored to (6, 1); a whole store of self.TAA must be followed by it on the path,
+    # or store a value that is a column by construction.
+    rep.rule('R20.9', 'every whole store of self.TAA in class tm is a 6x1 column by construction or is followed by TAAtoTM() (which reshapes it) on every '
+                      'path: indexing a transform - how disp renders lists of transforms - never meets a flat six-vector')
+    tmc9 = model.cls('basic_robotics.general.faser_transform', 'tm')
+    t2 = tmc9.methods.get('TAAtoTM')
+    if t2 is None:
+        raise AnalysisError('anchor vanished: tm.TAAtoTM')
+    il_t2 = Inliner(t2)
+    norm_ok = any(isinstance(a_, ast.Assign) and norm_text(a_.targets[0]) == 'self.TAA' and norm_text(il_t2.expand(a_.value)) in (
+        'self.TAA.reshape((6,1))', 'self.TAA.reshape(6,1)', 'np.reshape(self.TAA,(6,1))', 'self.TAA.reshape((-1,1))', 'self.TAA.reshape(-1,1)') for a_ in walk_own(t2.node))
+    rep.ob('R20.9', t2, 'TAAtoTM brings the six-vector to shape (6, 1)', norm_ok, 'TAAtoTM no longer reshapes self.TAA to a column: flat six-vectors handed to sTAA / set stay flat')
+
+    def column9(text):
+        try:
+            e = ast.parse(text, mode='eval').body
+        except SyntaxError:
+            return False
+        while isinstance(e, ast.Call) and isinstance(e.func, ast.Attribute) and e.func.attr in ('copy', 'astype') :
+            e = e.func.value
+        if isinstance(e, ast.Call) and isinstance(e.func, ast.Attribute) and e.func.attr == 'reshape':
+            args = e.args[1:] if norm_text(e.func.value) in ('np', 'numpy') else e.args
+            a = args[0].elts if len(args) == 1 and isinstance(args[0], (ast.Tuple, ast.List)) else args
+            return [norm_text(x) for x in a] in (['6', '1'], ['-1', '1'], ['6', '-1'])
+        if isinstance(e, ast.Call) and norm_text(e.func) in ('np.zeros', 'np.ones', 'np.empty') and e.args:
+            return norm_text(e.args[0]) in ('(6,1)', '((6,1))', '[6,1]')
+        if isinstance(e, ast.Call) and norm_text(e.func) in ('np.vstack', 'numpy.vstack') and e.args and isinstance(e.args[0], (ast.Tuple, ast.List)):
+            return all('reshape((3,1))' in norm_text(x) or 'reshape(3,1)' in norm_text(x) or norm_text(x).endswith('[0:3]') or norm_text(x).endswith('[3:6]') for x in e.args[0].elts)
+        if isinstance(e, ast.Attribute) and e.attr == 'TAA' and not (isinstance(e.value, ast.Name) and e.value.id == 'self'):
+            return True                     # the six-vector of another transform (a column by this very invariant)
+        if isinstance(e, ast.Call) and isinstance(e.func, ast.Attribute) and e.func.attr == 'gTAA':
+            return True
+        return False
+    n9 = 0
+    for name9, fi9 in sorted(tmc9.methods.items()):
+        if name9 == 'TAAtoTM' or not any(isinstance(a_, ast.Assign) and any(norm_text(t_) == 'self.TAA' for t_ in a_.targets) for a_ in walk_own(fi9.node)):
+            continue
+        flat9 = _pe7.flatten({}, fi9.node, depth=1, impure=True)
+        try:
+            ps9 = paths_of(flat9, fi9.params)
+        except RuntimeError:
+            continue
+        bad9 = None
+        for pth in ps9:
+            if pth.kind not in ('return', 'fall'):
+                continue
+            evs = pth.events
+            last = max((i_ for i_, e_ in enumerate(evs) if e_[0] == 'store' and e_[1] == 'self.TAA' and len(e_) > 3), default=None)
+            if last is None:
+                continue
+            n9 += 1
+            synced = any(e_[0] == 'call' and e_[1] in ('self.TAAtoTM', 'self.TMtoTAA') for e_ in evs[last + 1:])
+            if not synced and not column9(evs[last][3]):
+                bad9 = (evs[last][2], evs[last][3])
+                break
+        rep.ob('R20.9', fi9, '%s: self.TAA left as a column on every path' % name9, bad9 is None,
+               ('on a path %s ends with self.TAA = %s - not a (6, 1) column by construction and not followed by TAAtoTM(): a flat six-vector given by the caller stays '
+                'flat, tm.__getitem__ (`self.TAA[k, 0]`) then raises IndexError, and disp([transform, ...]) fails instead of returning the table' % (name9, bad9[1][:50])) if bad9 else 'ok',
+               line=bad9[0] if bad9 else None)
+    rep.floor('R20.9', 'paths storing the six-vector', n9, 6)
+
     # ---------------------------------------------------------------- R20.8
     # the table of a list of transforms is filled cell by cell through `matrix[i][j]`, i.e. tm.__getitem__: what is shown is what it returns
     rep.rule('R20.8', 'indexing a transform returns the entry of its six-vector unchanged (printTFlist renders lists of transforms cell by cell '
